@@ -1,7 +1,197 @@
-use crate::case::{Case, Outcome};
+//! C11, separate-process part (sequential build): real child processes of the harness binary race
+//! for the directory lock. Deterministic by construction of the pipe handshakes, not by a controlled
+//! scheduler (and reported as such in the evidence).
 
-pub fn run_procs(_case: &Case, _pseed: u64) -> Outcome {
+use std::io::{BufRead, BufReader, Write};
+use std::process::{Child, Command, Stdio};
+
+use cassadilia::{Cas, LibError};
+
+use crate::case::{Case, Outcome};
+use crate::exec::{disk_image, fail, to_config, Failure};
+use crate::interpose;
+use crate::rng::Rng;
+use crate::seqrun::{fresh_dir, remove_dir};
+use crate::sim::Disk;
+
+/// child: `casim-seq holder <db dir> <n> <wait-go:0|1> <put:0|1>`
+pub fn cmd_holder(args: &[String]) -> i32 {
+    let dir = std::path::PathBuf::from(&args[0]);
+    let n: u64 = args[1].parse().unwrap_or(3);
+    let wait_go = args.get(2).map(String::as_str) == Some("1");
+    let do_put = args.get(3).map(String::as_str) == Some("1");
+    let stdin = std::io::stdin();
+    let mut line = String::new();
+    if wait_go {
+        let _ = stdin.lock().read_line(&mut line);
+        line.clear();
+    }
+    let cfg = crate::gen::Cfg { n, async_mode: false, scan: true, verify: false, fail_on_integrity: true, pre_create: false };
+    match Cas::<String>::open(&dir, to_config(&cfg)) {
+        Ok(cas) => {
+            if do_put {
+                let r = cas.put("from-child".to_string()).and_then(|mut tx| {
+                    tx.write(b"child data").map_err(|e| LibError::Io { operation: cassadilia::LibIoOperation::WriteStagingFile, path: None, source: std::io::Error::other(e.to_string()) })?;
+                    tx.finish()
+                });
+                if let Err(e) = r {
+                    println!("PUTFAILED {e}");
+                }
+            }
+            println!("OPENED");
+            let _ = std::io::stdout().flush();
+            // hold the handle until told to exit (or until killed)
+            let _ = stdin.lock().read_line(&mut line);
+            drop(cas);
+            0
+        }
+        Err(LibError::AlreadyOpened) => {
+            println!("FAILED AlreadyOpened");
+            let _ = std::io::stdout().flush();
+            let _ = stdin.lock().read_line(&mut line);
+            0
+        }
+        Err(e) => {
+            println!("FAILED other: {e}");
+            let _ = std::io::stdout().flush();
+            1
+        }
+    }
+}
+
+struct Holder {
+    child: Child,
+    out: BufReader<std::process::ChildStdout>,
+}
+
+fn spawn_holder(dir: &std::path::Path, n: u64, wait_go: bool, put: bool) -> Holder {
+    let exe = std::env::current_exe().expect("exe");
+    let mut child = Command::new(exe)
+        .arg("holder")
+        .arg(dir)
+        .arg(n.to_string())
+        .arg(if wait_go { "1" } else { "0" })
+        .arg(if put { "1" } else { "0" })
+        .stdin(Stdio::piped())
+        .stdout(Stdio::piped())
+        .stderr(Stdio::null())
+        .spawn()
+        .expect("spawn holder");
+    let out = BufReader::new(child.stdout.take().unwrap());
+    Holder { child, out }
+}
+
+impl Holder {
+    fn line(&mut self) -> String {
+        let mut s = String::new();
+        let _ = self.out.read_line(&mut s);
+        s.trim().to_string()
+    }
+    fn tell(&mut self, msg: &str) {
+        if let Some(i) = self.child.stdin.as_mut() {
+            let _ = writeln!(i, "{msg}");
+            let _ = i.flush();
+        }
+    }
+    fn finish(mut self, kill: bool) {
+        if kill {
+            let _ = self.child.kill();
+        } else {
+            self.tell("exit");
+        }
+        let _ = self.child.wait();
+    }
+}
+
+pub fn run_procs(case: &Case, pseed: u64) -> Outcome {
     let mut out = Outcome::default();
-    out.harness_error = Some("mode not implemented".into());
+    out.counters.runs = 1;
+    let mut rng = Rng::new(pseed);
+    let n = case.workload.cfg.n;
+    let cfg = crate::gen::Cfg { n, async_mode: false, scan: true, verify: false, fail_on_integrity: true, pre_create: false };
+    let base = fresh_dir();
+    let db = base.join("db");
+    let r: Result<(), Failure> = (|| {
+        let vio = |class: &str, msg: String| fail(&["C11"], class, 0, msg);
+        // 1. a child owns the directory (optionally writes one key)
+        let put = rng.chance(1, 2);
+        let mut a = spawn_holder(&db, n, false, put);
+        let l = a.line();
+        if l != "OPENED" {
+            a.finish(true);
+            return Err(vio("first-open-failed", format!("the first process could not open a fresh directory: {l}")));
+        }
+        // 2. the parent's open must fail and leave every file untouched
+        let before = interpose::bypass(|| Disk::from_dir(&base)).map(|d| disk_image(&d)).map_err(|e| vio("harness", e.to_string()))?;
+        let attempts = 1 + rng.below(3);
+        for _ in 0..attempts {
+            match Cas::<String>::open(&db, to_config(&cfg)) {
+                Err(LibError::AlreadyOpened) => {}
+                Ok(c) => {
+                    drop(c);
+                    a.finish(true);
+                    return Err(vio("two-live-handles", "a second process opened the directory while the first still holds it".into()));
+                }
+                Err(e) => {
+                    a.finish(true);
+                    return Err(vio("wrong-error", format!("losing open failed with {e} instead of AlreadyOpened")));
+                }
+            }
+        }
+        let after = interpose::bypass(|| Disk::from_dir(&base)).map(|d| disk_image(&d)).map_err(|e| vio("harness", e.to_string()))?;
+        if before != after {
+            let changed: Vec<&String> = after.iter().filter(|(k, v)| before.get(*k) != Some(v)).map(|(k, _)| k).chain(before.keys().filter(|k| !after.contains_key(*k))).collect();
+            a.finish(true);
+            return Err(vio("loser-modified-files", format!("a losing open modified database files: {changed:?}")));
+        }
+        // 3. the owner exits normally or is killed
+        let kill = rng.chance(1, 2);
+        *out.site_counts.entry(if kill { "owner-killed".into() } else { "owner-exited".into() }).or_insert(0) += 1;
+        a.finish(kill);
+        // 4. now the open succeeds and sees the owner's acknowledged write
+        match Cas::<String>::open(&db, to_config(&cfg)) {
+            Ok(c) => {
+                if put {
+                    match c.get(&"from-child".to_string()) {
+                        Ok(Some(b)) if b.as_ref() == b"child data" => {}
+                        other => {
+                            return Err(fail(&["C11", "C03"], "data-lost", 0, format!("after the owner {} the key it wrote reads {:?}", if kill { "was killed" } else { "exited" }, other.map(|o| o.map(|b| b.len())).map_err(|e| e.to_string()))));
+                        }
+                    }
+                }
+                drop(c);
+            }
+            Err(e) => return Err(vio("reopen-after-exit-failed", format!("open after the owner {} failed: {e}", if kill { "was killed" } else { "exited" }))),
+        }
+        // 5. two processes released at the same moment: exactly one wins
+        let mut b = spawn_holder(&db, n, true, false);
+        let mut c = spawn_holder(&db, n, true, false);
+        if rng.chance(1, 2) {
+            b.tell("go");
+            c.tell("go");
+        } else {
+            c.tell("go");
+            b.tell("go");
+        }
+        let (lb, lc) = (b.line(), c.line());
+        let wins = [&lb, &lc].iter().filter(|l| l.as_str() == "OPENED").count();
+        let ok_losers = [&lb, &lc].iter().filter(|l| l.as_str() == "FAILED AlreadyOpened").count();
+        b.finish(false);
+        c.finish(false);
+        if wins != 1 || ok_losers != 1 {
+            return Err(vio("race-outcome", format!("two processes racing for one directory reported {lb:?} and {lc:?}; expected exactly one OPENED and one AlreadyOpened")));
+        }
+        *out.site_counts.entry("process-races".into()).or_insert(0) += 1;
+        Ok(())
+    })();
+    remove_dir(&base);
+    out.fingerprints.push(pseed % 8);
+    if let Err(f) = r {
+        if f.class == "harness" {
+            out.harness_error = Some(f.message);
+        } else {
+            out.violation = Some(f);
+        }
+    }
     out
 }
